@@ -81,6 +81,12 @@ def scalar_cmp_exec(rng, kind):
             d, tk = define("X", blobs(rng, 8, sz) if sz != 24 else sblobs(rng, 10), len(toks) + len(extra) + 1 + (100 if sz == 5 else 50 if sz == 12 else 150))
             L += d; extra += all_pairs(tk)
             extra += ["cmp %d %d" % (toks[0], tk[0]), "cmp %d %d" % (tk[1], toks[1])]
+    if kind == "S":                       # Strings that held longer texts and were cut down (stale characters behind the terminator)
+        base = len(toks) + 300
+        cut = []
+        for i, (txt, n) in enumerate(((b"stale-tail-one", 0), (b"another, longer tail", 0), (b"abcXYZ", 3), (b"abcDEF-and-more", 3), (b"", 0))):
+            L.append("V %d S %s" % (base + i, hx(txt))); L.append("hresize %d %d" % (base + i, n)); cut.append(base + i)
+        extra += all_pairs(cut) + ["cmp %d %d" % (a, b) for a in cut for b in toks[:4]] + ["cmp %d %d" % (b, a) for a in cut for b in toks[:4]]
     return ["reset"] + L + all_pairs(toks) + extra
 
 def seq_cmp_exec(rng, strict=False):
